@@ -180,13 +180,17 @@ def g_member(rng, depth, last, names):
             widths.append(pad)
         if rng.random() < 0.4:
             ms[0] = '"b0"/Flag' if widths[0] == 1 else ms[0]
-        return 'BitStruct(%s)' % ', '.join(ms), lambda g: {('b%d' % i if i < k else 'bp'): (g.randrange(1 << w) if not (i == 0 and ms[0].endswith('Flag')) else g.random() < 0.5) for i, w in enumerate(widths)}
+        if pad and rng.random() < 0.6:
+            ms[-1] = 'Padding(%d)' % pad            # anonymous bit padding instead of a named filler
+        return 'BitStruct(%s)' % ', '.join(ms), lambda g: {('b%d' % i if i < k else 'bp'): (g.randrange(1 << w) if not (i == 0 and ms[0].endswith('Flag')) else g.random() < 0.5) for i, w in enumerate(widths) if not (i >= k and ms[-1].startswith('Padding'))}
     if r < 0.96:
         return 'RepeatUntil(obj_ == 0, Byte)', lambda g: [g.randrange(1, 256) for _ in range(g.randint(0, 3))] + [0]
     if r < 0.975:
         return 'FlagsEnum(Byte, a=1, b=2, c=128)', lambda g: dict(a=g.random() < 0.5, b=g.random() < 0.5, c=g.random() < 0.5)
     if r < 0.99:
-        return 'NullTerminated(GreedyBytes)', lambda g: bytes(g.randrange(1, 256) for _ in range(g.randint(0, 4)))
+        opt = rng.choice(['', ', include=True', ', term=b"\\xff"'])      # consume=False is exercised by a fixed case: what follows it re-parses shifted
+        t = 255 if 'xff' in opt else 0
+        return 'NullTerminated(GreedyBytes%s)' % opt, lambda g: bytes(g.choice([x for x in range(1, 255) if x != t]) for _ in range(g.randint(0, 4)))
     if depth > 0:
         s, v = g_struct(rng, depth - 1)
         return s, v
@@ -251,6 +255,10 @@ FIXED = [
     'Struct("p"/Prefixed(Int16ub, Struct("x"/Byte, "r"/GreedyBytes)), "t"/Byte)',
     'Struct("l"/Int16ul, "s"/PaddedString(this.l, "utf8"), "t"/Byte)',
     'Struct("o"/Byte, "p"/Pointer(this.o, Int16ub), "t"/Byte)',
+    'Struct("s"/NullTerminated(GreedyBytes, consume=False), "t"/Byte, "u"/Byte)',
+    'Struct("s"/NullTerminated(GreedyBytes, include=True), "u"/Byte)',
+    'Struct("b"/BitStruct("a"/Nibble, Padding(3), "c"/Bit), "t"/Byte)',
+    'Struct("b"/BitStruct("a"/BitsInteger(5), "f"/Flag, Padding(2), "c"/Byte), "t"/Byte)',
 ]
 
 FIXED_VALUES = {
@@ -259,6 +267,7 @@ FIXED_VALUES = {
     5: dict(p=b'ab', q=[1, 2], f=b'wxyz'), 6: dict(b=dict(x=5, y=3, z=True), c=9, e=1), 7: dict(p=3, n=b'ab', m=7),
     8: dict(v=300, r=[1, 2, 0], f=dict(a=True, b=False), t=4), 9: dict(s=b'ab'), 10: dict(n=1, j=5, t=2),
     11: dict(a=[dict(x=1, y=2), dict(x=3, y=4)], t=5), 12: dict(p=dict(x=1, r=b'zz'), t=5), 13: dict(l=4, s='ab', t=1), 14: dict(o=3, p=258, t=1),
+    15: dict(s=b'ab', t=0, u=7), 16: dict(s=b'ab\x00', u=7), 17: dict(b=dict(a=9, c=1), t=3), 18: dict(b=dict(a=17, f=True, c=200), t=3),
 }
 
 
